@@ -13,5 +13,5 @@ open Xt.Sites in
   -- Informational only (removing a site never breaks an obligation): accounts
   -- whose key no longer occurs in the sources and can be deleted.
   for c in covered do
-    unless Xt.Generated.sites.any (fun e => sameKey e c) do
+    unless Xt.Generated.sites.any (fun e => sameKey e c || wildKey e c) do
       IO.println s!"STALE-ACCOUNT file={c.1} fn={c.2.1} kind={c.2.2.1}"
